@@ -20,6 +20,7 @@ From CG Require Import Spec.Lang.
 From CG Require Import Model.Lexer.
 From CG Require Import Model.Parser.
 From CG Require Import Spec.Printer.
+From CG Require Import Model.Ambiguity.
 (* add new Require lines above this line *)
 Require Import ExtrOcamlBasic ExtrOcamlString.
 Extraction Language OCaml.
@@ -69,5 +70,6 @@ Separate Extraction
   Printer.located_with
   Printer.wf_stmt
   Printer.erase_grammar
+  Ambiguity.check_ambiguity_best_effort
   (* add new roots above this line *)
   Prelude.pow2.
